@@ -823,3 +823,10 @@ Proof.
   intros R rt build ps u tail Hne Hps Hu Hni Hle. apply unknown_pids_ignored; try assumption.
   intros row Hin E. apply Hni. rewrite <- E. apply in_map. assumption.
 Qed.
+
+Lemma rows_nil : forall {R} (wt : list (wrow R)) (r : R), rows_read_back wt r [] tt.
+Proof. intros. exact I. Qed.
+Lemma rows_cons : forall {R} (wt : list (wrow R)) (r : R) pid ty (rd : reader ty) (t : list rrow) (a : ty) (rest : tuple_of t),
+  pid <> 768 -> reader_ok (emitted wt r pid) rd a -> rows_read_back wt r t rest ->
+  rows_read_back wt r (mkrrow pid ty rd :: t) (a, rest).
+Proof. intros. cbn [rows_read_back r_pid r_reader fst snd]. auto. Qed.
